@@ -561,6 +561,11 @@ func c16Attributes(c *core.Ctx, present func(m *samlsp.Middleware, cookieName, v
 		{"no-subject", &saml.Assertion{AttributeStatements: []saml.AttributeStatement{{Attributes: []saml.Attribute{{Name: "groups", Values: av("users")}}}}}},
 		{"empty-valued", &saml.Assertion{Subject: sub, AttributeStatements: []saml.AttributeStatement{{Attributes: []saml.Attribute{{Name: "groups", Values: av("")}, {Name: "novalues"}}}}}},
 		{"no-attributes", &saml.Assertion{Subject: sub}},
+		// an attribute without Name and FriendlyName (after a named one, and first): its values are nobody else's; values that contain the
+		// characters applications use as list separators are single values
+		{"nameless-attribute-after-named", &saml.Assertion{Subject: sub, AttributeStatements: []saml.AttributeStatement{{Attributes: []saml.Attribute{{Name: "groups", Values: av("users")}, {Values: av("admins")}, {Name: "role", Values: av("dev")}}}}}},
+		{"nameless-attribute-first", &saml.Assertion{Subject: sub, AttributeStatements: []saml.AttributeStatement{{Attributes: []saml.Attribute{{Values: av("admins")}, {Name: "groups", Values: av("users")}}}}}},
+		{"values-with-separators", &saml.Assertion{Subject: sub, AttributeStatements: []saml.AttributeStatement{{Attributes: []saml.Attribute{{Name: "groups", Values: av("users;admins", "ops|owner", "a b", "x\ty")}, {Name: "role", Values: av("dev:owner", "viewer/owner")}}}}}},
 		// a Subject that carries no identifier of its own: the NameID inside a SubjectConfirmation names the confirming party, not the subject
 		{"subject-without-nameid+confirmation-nameid", &saml.Assertion{Subject: &saml.Subject{SubjectConfirmations: []saml.SubjectConfirmation{{Method: "urn:oasis:names:tc:SAML:2.0:cm:sender-vouches", NameID: &saml.NameID{Value: "https://gateway.example.com/attesting-entity"}}}}, AttributeStatements: []saml.AttributeStatement{{Attributes: []saml.Attribute{{Name: "groups", Values: av("users")}}}}}},
 		{"subject-nameid+confirmation-nameid", &saml.Assertion{Subject: &saml.Subject{NameID: &saml.NameID{Value: "alice@example.com"}, SubjectConfirmations: []saml.SubjectConfirmation{{Method: "urn:oasis:names:tc:SAML:2.0:cm:bearer", NameID: &saml.NameID{Value: "mallory@example.com"}}}}}},
@@ -572,7 +577,9 @@ func c16Attributes(c *core.Ctx, present func(m *samlsp.Middleware, cookieName, v
 	gates := []struct{ n, v string }{{"groups", "admins"}, {"groups", "users"}, {"groups", "ops"}, {"groups", ""}, {"role", "owner"}, {"role", "viewer"}, {"uid", "alice"}, {"urn:oid:1", "alice"}, {"missing", "x"}, {"groups", "admin"}, {"SessionIndex", "i2"},
 		// near misses of values the assertions do carry: letter case, surrounding blanks, prefixes, a separator-joined list
 		{"groups", "Admins"}, {"groups", "ADMINS"}, {"groups", "admins "}, {"groups", " admins"}, {"groups", "users,admins"}, {"groups", "user"}, {"Groups", "admins"}, {"GROUPS", "users"},
-		{"role", "Owner"}, {"uid", "Alice"}, {"uid", "ALICE"}, {"sessionindex", "i2"}}
+		{"role", "Owner"}, {"uid", "Alice"}, {"uid", "ALICE"}, {"sessionindex", "i2"},
+		// pieces of values that contain a separator character, and the whole values
+		{"groups", "users;admins"}, {"groups", "ops|owner"}, {"groups", "ops"}, {"groups", "owner"}, {"groups", "a"}, {"groups", "b"}, {"groups", "x"}, {"role", "dev"}, {"role", "dev:owner"}, {"role", "viewer"}, {"", "admins"}}
 	for _, kn := range []string{"sp2048", "spec256"} {
 		for _, sh := range shapes {
 			kn, sh := kn, sh
